@@ -110,6 +110,9 @@ func NewProtocol[G algebra.PrimeGroupElement[G, S], S algebra.PrimeFieldElement[
 		if s == nil {
 			return *new(G), proofs.ErrInvalidArgument.WithMessage("homomorphism input cannot be nil")
 		}
+		if len(s.Components()) != len(generators) {
+			return *new(G), proofs.ErrInvalidArgument.WithMessage("homomorphism input has %d components, expected %d", len(s.Components()), len(generators))
+		}
 		return generatorsVector.ScalarDiagonal(s).CoDiagonal(), nil
 	}
 
